@@ -270,6 +270,10 @@ pub fn alphabet(sc: &Scope, asks: &[(String, AskOrderV1)], bids: &[(String, BidO
                     szs.push(inc / 2);
                 }
                 szs.push(m + 1);
+                // one and two units: the price improvement on so small a fill is less than a unit, its
+                // fee share rounds to nothing
+                szs.push(1);
+                szs.push(2);
                 szs.sort();
                 szs.dedup();
                 for sz in szs {
@@ -835,10 +839,15 @@ pub fn mig_grid() -> Vec<History> {
                     steps.push(Step::Query { msg: QueryMsg::GetBid { id: k.clone() } });
                 }
                 // matches that were possible before the migration are possible after it
+                // (current-format and converted bids alike; a lot, and a single unit – a fill so small that
+                // its share of the bid's fee rounds to nothing, which must go through whatever the
+                // migration did to the fee configuration)
                 for (ak, a) in &sh.0 {
-                    for (bk, _) in &sh.1 {
-                        steps.push(Step::Try { sender: sc.exec.into(), funds: vec![], msg: ExecuteMsg::ExecuteMatch { ask_id: ak.clone(), bid_id: bk.clone(), price: a.price.clone(), size: Uint128::new(10) } });
-                        steps.push(Step::Try { sender: sc.exec.into(), funds: vec![], msg: ExecuteMsg::ExecuteMatch { ask_id: ak.clone(), bid_id: bk.clone(), price: "3".into(), size: Uint128::new(10) } });
+                    for bk in sh.1.iter().map(|x| x.0.clone()).chain(sh.2.iter().map(|x| x.0.clone())) {
+                        for sz in [10u128, 1] {
+                            steps.push(Step::Try { sender: sc.exec.into(), funds: vec![], msg: ExecuteMsg::ExecuteMatch { ask_id: ak.clone(), bid_id: bk.clone(), price: a.price.clone(), size: Uint128::new(sz) } });
+                            steps.push(Step::Try { sender: sc.exec.into(), funds: vec![], msg: ExecuteMsg::ExecuteMatch { ask_id: ak.clone(), bid_id: bk.clone(), price: "3".into(), size: Uint128::new(sz) } });
+                        }
                     }
                 }
                 steps.push(Step::Query { msg: QueryMsg::GetVersionInfo {} });
